@@ -165,10 +165,10 @@ func genTraceHelper(r *rand.Rand, w *W) [][]string {
 	for i := 0; i < 6; i++ {
 		method := pick(r, []string{"TRACE", "GET", "POST"})
 		path := pick(r, []string{"/", "/a?x=<y>", "/p/&amp;", "/\"q\"", "/plain"})
-		body := pick(r, []string{"", "<script>alert(1)</script>", "a&b", "plain body", "'quoted'"})
+		body := pick(r, []string{"", "<script>alert(1)</script>", "a&b", "plain body", "'quoted'", "{\"k\": \"v\"}", "it's"})
 		hk, hv := "", ""
 		if r.Intn(2) == 0 {
-			hk, hv = "X-Test", pick(r, []string{"<b>", "1", "a&b"})
+			hk, hv = "X-Test", pick(r, []string{"<b>", "1", "a&b", "W/\"etag\"", "'v'"})
 		}
 		withBody := r.Intn(2) == 0
 		// what the helper must reproduce: the HTML-escaped dump of the request
@@ -185,7 +185,7 @@ func genTraceHelper(r *rand.Rand, w *W) [][]string {
 		if err != nil {
 			continue
 		}
-		ops = append(ops, []string{"tracehelper", b2s(withBody), itoa(len(html.EscapeString(string(text)))), method, path, body, hk, hv})
+		ops = append(ops, []string{"tracehelper", b2s(withBody), itoa(len(html.EscapeString(string(text)))), method, path, body, hk, hv, html.EscapeString(string(text))})
 	}
 	return ops
 }
